@@ -186,6 +186,12 @@ def triple(ctx, cfg, forced=None):
             noise.append((fr, nm))
         elif k == 0:
             if rng.random() < 0.3:
+                # datagrams that stop in the middle of a request, single-fault requests, reply-typed messages: whatever a
+                # responder keeps of them must not be kept where the next datagram of somebody else finds it
+                u = rng.choice(gen.app_requests(rng))[1]
+                u = rng.choice([u[:rng.randrange(1, max(2, len(u)))], rng.choice(gen.near_requests(rng))[1], u[:7], u[:8]])
+                noise.append((oe.udp(gen.rnd_port(rng), gen.rnd_port(rng), u), "udp:partial"))
+            elif rng.random() < 0.3:
                 c = rpc.gen_call(rng, prog=rpc.PMAP, vers=rng.choice([2, 2, 3, 4]), proc=rng.choice([1, 1, 2]), maxauth=8)     # SET / UNSET over UDP
                 noise.append((oe.udp(gen.rnd_port(rng), rng.choice([111, gen.rnd_port(rng)]), bytes([0x7A]) + c["msg"][1:]), "udp:pmap_set"))
             else:
@@ -245,6 +251,16 @@ def triple(ctx, cfg, forced=None):
         ctx.nontrivial(Fname, word)
     if len(ctx.samples) < 2 and between:
         ctx.sample({"target": Fname, "interleaving": word})
+    # flow-less traffic (UDP, ICMP, ARP) has no history at all: each such frame of H is answered in the interleaving exactly
+    # as it is answered when it is the only frame the responder sees after a reset
+    solo = [(pos, i) for pos, (w, i) in enumerate(order) if w == "H" and Hkall[i].split(":")[0] in ("udp", "echo", "arp")]
+    for pos, i in rng.sample(solo, min(3, len(solo))):
+        want = execute(ctx, [Hall[i]])[0]
+        ctx.stats["solo_comparisons"] += 1
+        if want != inter[pos] and not mism:
+            ctx.violation("interference:flowless", "%s frame #%d of the interleaving is answered differently than when it is the only frame sent: alone=%s interleaved=%s" % (
+                Hkall[i], pos, canon.describe(want), canon.describe(inter[pos])), observed=canon.describe(inter[pos]), expected=canon.describe(want),
+                extra={"F": [x.hex() for x in F], "H": [x.hex() for x in Hall], "order": order})
     if mism:
         pos, w, i, want, got = mism[0]
         collision = ckF in cks or len(set(cks)) < len(cks)
